@@ -187,6 +187,9 @@ fn fam_reject() -> Report {
         for (input, why) in [
             ("", "no branch"),
             ("then => |a| a", "no branch, only a handler"),
+            ("map => |a| a", "no branch, only a handler"),
+            ("and_then => |a| Some(a),", "no branch, only a handler"),
+            ("transpose_results(false) map => |a| a,", "no branch, options and a handler"),
             ("custom_joiner(j)", "only options"),
             (", Some(1)", "empty first branch"),
             ("Some(1), , Some(2)", "empty branch"),
@@ -208,8 +211,9 @@ fn fam_reject() -> Report {
             ("let _ = Some(1) |> f", "non-identifier `let` pattern (wildcard)"),
         ] {
             let o = expand(input, k);
-            let ok = matches!(&o, Outcome::SynErr(m) if !m.is_empty()) || matches!(&o, Outcome::ConfigReject(m) if !m.is_empty());
-            r.check(ok, &format!("[{}] {}", KINDS[k].0, input), &format!("structurally invalid input ({}) must be rejected with a message, got {:?}", why, trunc(&o)));
+            // a diagnostic (syn::Error -> compile_error!), not a panic of the proc macro
+            let ok = matches!(&o, Outcome::SynErr(m) if !m.is_empty());
+            r.check(ok, &format!("[{}] {}", KINDS[k].0, input), &format!("structurally invalid input ({}) must be rejected with a diagnostic message (not a proc-macro panic), got {:?}", why, trunc(&o)));
         }
     }
     r
@@ -311,13 +315,17 @@ fn fam_purity(tier: &str) -> Report {
         "Some(1) |> { let a = 1; move |v| v + a } ~=> { |v| Some(v) }, Some(2) |> { |v| v } ~|> { |v| v }, Some(3) ^@ { 0 }, { |a, b| a + b }",
         "let a = Ok::<u8,u8>(1) |> >>> |> { f } <<< ~=> g, let b = Ok::<u8,u8>(2) ~<| { Ok(3) }, Ok(3) -> { h }, map => |a, b, c| a + b + c",
         "x, y ~|> f, z ~|> g ~|> h, w ?? { i } ~?? { j } ~?? { k }, v => { a } => { b } => { c } => { d }",
+        "xs.into_iter() =>[] Vec<u8>",
+        "a ?|>@ f",
+        "Some(1) => f",
+        "it ?|> g",
         "custom_joiner(j) lazy_branches(true) a |> { b }, c |> { d }, e |> { f }, g |> { h }, i |> { j }, k |> { l }, m |> { n }, o |> { p }, q |> { r }, s |> { t }, u |> { v }, w |> { x }",
     ];
     let reps = if tier == "thorough" { 50 } else { 12 };
     for (ii, input) in inputs.iter().enumerate() {
         for k in 0..8 {
             if ii == 1 && !KINDS[k].2 { continue; }
-            if ii != 1 && KINDS[k].2 && ii != 2 && ii != 3 { continue; }
+            if ii == 0 && KINDS[k].2 { continue; }
             let first = expand(input, k);
             let mut same = true;
             // sequentially, interleaved with other expansions
@@ -394,11 +402,12 @@ fn fam_structure(tier: &str) -> Report {
     let mut r = Report::new("structure");
     // operands without a top-level split point (look-alikes inside groups / incomplete operands)
     let operands: Vec<&str> = vec![
-        "f", "|v| v + 1", "|x| -> u8 { x + 1 }", "then", "a + map", "!and_then", "|x: Vec<Vec<u8>>| x", "g::<u8, u16>", "(|x| -> u8 { x }, b..c)", "[a <= b, c >> 1]",
+        "f", "|v| v + 1", "|x| -> u8 { x + 1 }", "then", "a + map", "!and_then", "fill::<{ W + 1 }, u8>(7)", "|Acc { n }, v| n + v",
+        "|v: u8| -> Buf<{ W }, u8> { v }", "|x: Vec<Vec<u8>>| x", "g::<u8, u16>", "(|x| -> u8 { x }, b..c)", "[a <= b, c >> 1]",
         "{ match a { 1 => b, _ => c } }", "m!(a |> b, c <<< d ~ e)", "\"|> => ~ , <<<\"", "h(|a| -> u8 { a }, b..c)", "a >> 2", "a < b", "a == b", "(a..b)",
         "if a > b { c } else { d }", "match a { 1 => b, _ => c }", "&mut a", "a as u8", "-a",
     ];
-    let opn = if tier == "thorough" { operands.len() } else { 14 };
+    let opn = if tier == "thorough" { operands.len() } else { 17 };
     let mut render = |acts: &[Act], init: &str, r: &mut Report| {
         let mut s = String::from(init);
         let mut exp: Vec<(String, bool, &str, Vec<String>)> = vec![("Single".into(), false, "None", vec![squeeze(init)])];
